@@ -722,6 +722,17 @@ def signature(trace, v):
     """F-C07-2: a formula cell overridden *through a name or a multi-cell
     range* is re-evaluated (its own formula races the inverse distribution of
     the range value)."""
+    if v['clause'] == 'C07.fresh' and 'PYTHONHASHSEED' in v['detail']:
+        # F-C07-4: blank cells overridden THROUGH a name / range
+        idx = Index(trace['world'])
+        for t, _ in trace['observed']['inputs']:
+            if t[0] in ('name', 'range'):
+                r = trace['world']['names'][t[1]]['t'] if t[0] == 'name' \
+                    else t[1]
+                if any(idx.occupant(p) is None for p in rect_cells(r)):
+                    return 'C07.fresh/blank-cells-overridden-through-range-' \
+                        'hashseed'
+        return None
     if stale_solution_written(trace) and v['clause'] in (
             'C07.fresh', 'C07.exact', 'C07.outputs', 'C07.alias'):
         return 'C07.fresh/write-loaded-books-after-compile-then-refinish'
@@ -749,20 +760,16 @@ def signature(trace, v):
 
 
 def stale_solution_written(trace):
-    """F-C07-3: compile() leaves placeholder values in model.dsp.solution;
-    a following write(books=model.books) without an intervening calculation
-    writes them into the loaded workbooks as text, and a later finish()
-    re-reads those cells."""
+    """F-C07-3: write(books=model.books) stores the last solution (overridden
+    inputs of blank cells, or the placeholders compile() leaves behind) in the
+    loaded workbooks, and a later finish() re-reads cells that were blank
+    from them."""
     state = 0
     for op in trace['ops']:
         k = op['op']
-        if k == 'compile':
+        if k == 'write_books':
             state = 1
-        elif k in ('calc', 'calc_fault') and state == 1:
-            state = 0
-        elif k == 'write_books' and state == 1:
-            state = 2
-        elif k == 'finish' and state == 2:
+        elif k == 'finish' and state == 1:
             return True
     return False
 
